@@ -43,7 +43,8 @@ def directed(rng: random.Random) -> dict:
                        "mixed_immediate_and_deferred", "splice_in_nested_scope", "undefined_macro_nested", "macro_and_scope_same_name",
                        "argument_names_later_nearer_label", "named_scope_in_body", "many_applications", "block_declares_name_used_by_body", "block_expanded_several_times",
                        "defined_inside_a_scope_applied_outside", "label_in_conditional_applied_twice",
-                       "redefined_between_applications", "named_like_a_mnemonic"])
+                       "redefined_between_applications", "named_like_a_mnemonic",
+                       "applies_helper_defined_later", "block_forwarded_by_wrapper"])
     expect_reject = False
     expect_bytes = None
     if kind == "capture_eager":
@@ -84,6 +85,20 @@ def directed(rng: random.Random) -> dict:
                                                                   {"k": "ins", "m": "sta", "shape": "dir", "sz": "w", "e": E("paddr")}]},
                  {"k": "call", "n": nm, "as": [E(0x1234)]}, {"k": "ins", "m": "inc", "shape": "dir", "sz": "w", "e": E(0x2000)}, {"k": "call", "n": nm, "as": [E("laterq")]},
                  {"k": "block", "b": [{"k": "call", "n": nm, "as": [E("laterq", "+", 1)]}]}, {"k": "label", "n": "laterq"}, db(0x60)]
+    elif kind == "applies_helper_defined_later":
+        # a macro whose body applies a helper that is defined further down (before the first application): applications are expanded when
+        # they are met, not when the macro is defined
+        helper = {"k": "macro", "n": "ptr16q", "ps": ["ph"], "b": [{"k": "data", "d": "dw", "es": [E("ph")]}]}
+        entry = {"k": "macro", "n": "entryq", "ps": ["pid", "phandler"], "b": [db(E("pid")), rng.choice([{"k": "call", "n": "ptr16q", "as": [E("phandler")]},
+                 {"k": "block", "b": [{"k": "call", "n": "ptr16q", "as": [E("phandler")]}]}, {"k": "for", "v": "itq", "a": E(0), "b": E(2), "body": [{"k": "call", "n": "ptr16q", "as": [E("phandler", "+", "itq")]}]}])]}
+        body += [entry, db(0x01), helper, {"k": "call", "n": "entryq", "as": [E(1), E("hq1")]}, {"k": "call", "n": "entryq", "as": [E(2), E("hq2")]}, {"k": "label", "n": "hq1"}, db(0x60), {"k": "label", "n": "hq2"}, db(0x60)]
+    elif kind == "block_forwarded_by_wrapper":
+        # a wrapper hands its block parameter on to another macro inside a block argument of its own; applied several times with different blocks
+        body += [{"k": "macro", "n": "framedq", "ps": ["pcode"], "b": [db(0xA0), {"k": "splice", "n": "pcode"}, db(0xA1)]},
+                 {"k": "macro", "n": "taggedq", "ps": ["pid", "pblk"], "b": [db(E("pid")), {"k": "call", "n": "framedq", "as": [{"blk": [db(0x10), {"k": "splice", "n": "pblk"}]}]}]},
+                 {"k": "call", "n": "taggedq", "as": [E(7), {"blk": [db(1, 2)]}]}, {"k": "call", "n": "taggedq", "as": [E(8), {"blk": [db(3)]}]},
+                 {"k": "block", "b": [{"k": "call", "n": "taggedq", "as": [E(9), {"blk": [{"k": "data", "d": "dw", "es": [E(0x1234)]}, {"k": "ins", "m": "nop", "shape": "imp", "sz": "", "e": None}]}]}]}]
+        expect_bytes = bytes([7, 0xA0, 0x10, 1, 2, 0xA1, 8, 0xA0, 0x10, 3, 0xA1, 9, 0xA0, 0x10, 0x34, 0x12, 0xEA, 0xA1])
     elif kind == "label_in_conditional_applied_twice":
         # a macro without parameters whose label stands inside a conditional (or a loop / block) of its body: every application has its own
         inner = [{"k": "label", "n": "waitq"}, db(0x2C), {"k": "data", "d": "dw", "es": [E("waitq")]}]
@@ -291,11 +306,14 @@ def check_program(res: Res, p: dict) -> None:
         want = bytes.fromhex(p["expect_bytes"])
         if not r0.ok:
             res.case(src, True)
-            res.violate("valid-rejected", f"a recursive application that terminates after {len(want) - 2} levels is rejected: {r0.err_kind}: {r0.err_text[:160]}", wit)
+            what = f"a recursive application that terminates after {len(want) - 2} levels" if "recursion" in p.get("family", "") else f"a valid program of the family {p.get('family')}"
+            res.violate("valid-rejected", f"{what} is rejected: {r0.err_kind}: {r0.err_text[:160]}", wit)
             return
         if b"".join(bytes(b) for _, b in r0.blocks) != want:
             res.case(src, True)
-            res.violate("differs-from-inlining", f"recursive application over {len(want) - 2} levels emitted {sum(len(b) for _, b in r0.blocks)} bytes, expected {len(want)} (one body per level)", wit)
+            got0 = b"".join(bytes(b) for _, b in r0.blocks)
+            res.violate("differs-from-inlining", (f"recursive application over {len(want) - 2} levels emitted {len(got0)} bytes, expected {len(want)} (one body per level)" if "recursion" in p.get("family", "")
+                                                  else f"{p.get('family')}: emitted {got0[:24].hex()}, the bodies written out give {want[:24].hex()}"), wit)
             return
     try:
         consts = set()
